@@ -360,6 +360,25 @@ pub fn run(_tier: Tier) -> Outcome {
             continue;
         }
         *st.classes.entry(format!("golden_ok:{:?}", g.role).split('(').next().unwrap().to_string()).or_insert(0) += 1;
+        // control over an account never outlives the transaction: no marker may survive a commit
+        {
+            let mut t = s0.clone();
+            process_tx(&mut t, &gtx);
+            for (k, a) in t.accts.iter() {
+                if a.owner == marginfi::ID && a.data.len() > 8 && a.data[..8] == discriminators::ACCOUNT {
+                    let (f0, f1) = (s0.get(k).map(|_| world::account(&s0, k).account_flags).unwrap_or(0), world::account(&t, k).account_flags);
+                    let markers = ACCOUNT_IN_RECEIVERSHIP | ACCOUNT_IN_FLASHLOAN | marginfi_type_crate::types::ACCOUNT_IN_DELEVERAGE;
+                    if f1 & markers & !f0 != 0 {
+                        st.found.push(Found {
+                            clause: "C08.control_ends_with_the_transaction".into(),
+                            sig: format!("{}:marker", g.name),
+                            detail: format!("after the committed {} account {} carries flags {:#b} (third-party control / flash-loan marker survives the transaction)", g.name, world::label_of(k), f1),
+                            replay: json!({"model": "C08", "golden": g.name, "signer": "golden", "state": "Normal"}),
+                        });
+                    }
+                }
+            }
+        }
         let golden_post_key = {
             let mut t = s0.clone();
             process_tx(&mut t, &gtx);
